@@ -18,7 +18,8 @@ From TL Require Import Lib.Base Lib.GenTypes Model.PlacementTypes Gen.PlacementG
 Lemma gen_facts_matcher :
   fp_root_key = "/" /\ fp_root_key2 = "/" /\ fp_root_notin = "/" /\ fp_root_depth = 0%Z /\
   fp_best_init = (-1)%Z /\ fp_best_cmp = CGt /\ fp_split_sep = "/"%char /\ fp_prefix_method = "startswith" /\ fp_path_sep = "/" /\
-  fp_prefix_form = PfRstripSep "/"%char "/" /\ fp_relative_resolved = true.
+  fp_prefix_form = PfRstripSep "/"%char "/" /\ fp_relative_resolved = true /\
+  fp_normalize_ops = [NReplace "\" "/"].
 Proof. repeat split; reflexivity. Qed.
 
 Lemma gen_facts_checker :
@@ -48,6 +49,30 @@ Definition no_trailing_slash (c : config) : bool := forallb (fun dr => key_plain
 Definition is_none {A} (o : option A) : bool := match o with None => true | Some _ => false end.
 
 Definition depth_ok (q : pquirks) (c : config) : bool := negb (q_trailing_slash_depth q) || no_trailing_slash c.
+
+(* no component of the root-relative path has a backslash in its name *)
+Fixpoint no_backslash (s : string) : bool :=
+  match s with EmptyString => true | String c s' => negb (Ascii.eqb "\"%char c) && no_backslash s' end.
+
+Definition norm_ok (q : pquirks) (f : fileq) : bool := negb (q_backslash_separator q) || no_backslash (relpath f).
+
+(* normalize_path_string as found in the source - str(path).replace("\", "/") - leaves a path without backslashes
+   alone; with the flag off the replacement is dropped and nothing else is done to the path *)
+Lemma replace_backslash_id s : no_backslash s = true -> replace_go "\" "/" 0 s = s.
+Proof.
+  induction s as [|c s IH]; intros H; [reflexivity|].
+  cbn [no_backslash] in H. apply andb_true_iff in H. destruct H as [Hc Hs].
+  cbn [replace_go starts_with]. destruct (Ascii.eqb "\"%char c); [discriminate|].
+  cbn [andb]. rewrite (IH Hs). reflexivity.
+Qed.
+
+Lemma path_str_id q s : negb (q_backslash_separator q) || no_backslash s = true -> path_str q s = s.
+Proof.
+  intros H. unfold path_str, norm_ops. change fp_normalize_ops with [NReplace "\" "/"].
+  destruct (q_backslash_separator q); cbn [negb orb] in H.
+  - cbn [normalize fold_left norm_step]. apply replace_backslash_id. exact H.
+  - reflexivity.
+Qed.
 
 Section Engine.
   Variable valid : string -> bool.
@@ -268,7 +293,7 @@ Section Engine.
 
   Lemma rule_checks_judge p r dmsg amsg dmsg' amsg' :
     (forall reason, dmsg reason = dmsg' reason) -> amsg = amsg' ->
-    opt_list (first_some (map (fun k => rule_check matches k p r dmsg amsg) ["deny"; "allow"]))
+    opt_list (first_some (map (fun k => rule_check matches k p p r dmsg amsg) ["deny"; "allow"]))
     = spec_judge matches p r dmsg' amsg'.
   Proof.
     intros Hd Ha. subst amsg'. cbn [map]. unfold rule_check. cbn [String.eqb Ascii.eqb Bool.eqb andb].
@@ -317,7 +342,7 @@ Section Engine.
     cfg_ok c = true -> depth_ok q c = true -> globals_ok q c p = true ->
     check_all matches q p c = spec_report matches c p.
   Proof.
-    intros Hok Ht Hg. unfold check_all. change fp_checker_keys with ["directories"; "global_deny"; "global_patterns"].
+    intros Hok Ht Hg. unfold check_all, check_all_n. change fp_checker_keys with ["directories"; "global_deny"; "global_patterns"].
     cbn [flat_map]. unfold part_by. cbn [String.eqb Ascii.eqb Bool.eqb andb]. rewrite app_nil_r.
     unfold covered, dir_part. rewrite (find_matching_rule_spec q c p Ht). unfold spec_report.
     destruct (spec_rule p (dirs_of c)) as [[d r]|] eqn:Es.
@@ -439,12 +464,14 @@ Section Engine.
   (* the general statement: each remaining quirk is either off or cannot bear on the input *)
   Theorem run_spec_general q c f :
     cfg_ok c = true ->
-    depth_ok q c = true -> globals_ok q c (relpath f) = true ->
+    depth_ok q c = true -> globals_ok q c (relpath f) = true -> norm_ok q f = true ->
     forget (run valid matches q c f) = spec valid matches c f.
   Proof.
-    intros Hok Ht Hg. unfold run, spec. rewrite (validate_first_invalid q c), <- forallb_validation_order.
+    intros Hok Ht Hg Hn. unfold run, spec. rewrite (validate_first_invalid q c), <- forallb_validation_order.
     destruct (first_invalid_cases (patterns_in_validation_order c)) as [[E1 E2]|[p [E1 [_ [_ E4]]]]].
-    - rewrite E1, E2. cbn [forget]. rewrite (eff_path_relpath q f). f_equal. apply check_all_spec; assumption.
+    - rewrite E1, E2. cbn [forget]. rewrite (eff_path_relpath q f), (path_str_id q (relpath f) Hn). f_equal.
+      change (check_all_n matches q (relpath f) (relpath f) c) with (check_all matches q (relpath f) c).
+      apply check_all_spec; assumption.
     - rewrite E1, E4. reflexivity.
   Qed.
 
@@ -452,13 +479,14 @@ Section Engine.
      path resolution are the ones found in the source - is the specification, for every configuration with
      non-empty directory keys, every file and every regex engine *)
   Theorem run_exact q c f :
-    q_global_on_covered q = false -> q_trailing_slash_depth q = false ->
+    q_global_on_covered q = false -> q_trailing_slash_depth q = false -> q_backslash_separator q = false ->
     cfg_ok c = true ->
     forget (run valid matches q c f) = spec valid matches c f.
   Proof.
-    intros H1 H5 Hok. apply run_spec_general; [exact Hok| |].
+    intros H1 H5 H6 Hok. apply run_spec_general; [exact Hok| | |].
     - unfold depth_ok. now rewrite H5.
     - unfold globals_ok. now rewrite H1.
+    - unfold norm_ok. now rewrite H6.
   Qed.
 
   Theorem report_exact q c p :
@@ -476,9 +504,10 @@ Section Engine.
     cfg_ok c = true ->
     no_trailing_slash c = true ->
     (spec_rule (relpath f) (dirs_of c) = None \/ (c_gdeny c = None /\ c_gpat c = None)) ->
+    no_backslash (relpath f) = true ->
     forget (run valid matches q c f) = spec valid matches c f.
   Proof.
-    intros Hok Ht Hg. apply run_spec_general; [exact Hok| |].
+    intros Hok Ht Hg Hb. apply run_spec_general; [exact Hok| | |unfold norm_ok; rewrite Hb; apply orb_true_r].
     - unfold depth_ok. rewrite Ht. apply orb_true_r.
     - unfold globals_ok. destruct Hg as [E|[E1 E2]].
       + rewrite E. apply orb_true_r.
@@ -551,19 +580,19 @@ Section Engine.
   Theorem no_rules_no_report q c p :
     dirs_of c = [] -> c_gdeny c = None -> c_gpat c = None -> check_all matches q p c = [].
   Proof.
-    intros Hd Hg Hp. unfold check_all. change fp_checker_keys with ["directories"; "global_deny"; "global_patterns"].
+    intros Hd Hg Hp. unfold check_all, check_all_n. change fp_checker_keys with ["directories"; "global_deny"; "global_patterns"].
     cbn [flat_map]. unfold part_by. cbn [String.eqb Ascii.eqb Bool.eqb andb].
     unfold dir_part, find_matching_rule. rewrite Hd, Hg, Hp. reflexivity.
   Qed.
 
   (* the verdict depends only on the path relative to the project root *)
   Theorem verdict_depends_on_relpath_only q c f1 f2 :
-    q_global_on_covered q = false -> q_trailing_slash_depth q = false ->
+    q_global_on_covered q = false -> q_trailing_slash_depth q = false -> q_backslash_separator q = false ->
     cfg_ok c = true ->
     relpath f1 = relpath f2 ->
     forget (run valid matches q c f1) = forget (run valid matches q c f2).
   Proof.
-    intros H1 H5 Hok E. rewrite !run_exact by assumption. unfold spec. rewrite E. reflexivity.
+    intros H1 H5 H6 Hok E. rewrite !run_exact by assumption. unfold spec. rewrite E. reflexivity.
   Qed.
 
   (* a syntactically invalid pattern anywhere in the configuration is rejected, naming an invalid pattern;
